@@ -24,6 +24,9 @@ def oracle(res, cfg, o, rng):
         kw = w.kw()
         f = attempt(lambda: optree.tree_flatten_with_accessor(tree, **kw))
         if f[0] != 0:
+            f0 = attempt(lambda: optree.tree_flatten(tree, **kw))
+            if f0[0] == 0:
+                res.fail('tree_flatten_with_accessor raised on a tree that tree_flatten accepts', case, f)
             return (1,)
         accs, ls, sp = f[1]
         paths = optree.tree_paths(tree, **kw)
